@@ -386,8 +386,13 @@ class _FPCoreCompileInstance(Visitor):
 
     def _visit_range1(self, stop: Expr, ctx: None) -> fpc.Expr:
         # range(stop) => (tensor ([i <stop>]) i)
+        # Python's `range` is empty for a negative bound, a tensor dimension
+        # must not be negative: (tensor ([i (fmax <stop> 0)]) i) unless the
+        # bound is a literal
         tuple_id = str(self.gensym.fresh('i'))
         size = self._visit_expr(stop, ctx)
+        if not isinstance(size, (fpc.Integer, fpc.Decnum, fpc.Rational, fpc.Hexnum, fpc.Digits)):
+            size = fpc.Fmax(size, fpc.Integer(0))
         return fpc.Tensor([(tuple_id, size)], fpc.Var(tuple_id))
 
     def _visit_range2(self, start: Expr, stop: Expr, ctx: None) -> fpc.Expr:
@@ -395,8 +400,9 @@ class _FPCoreCompileInstance(Visitor):
         tuple_id = str(self.gensym.fresh('i'))
         start_expr = self._visit_expr(start, ctx)
         stop_expr = self._visit_expr(stop, ctx)
+        # (an empty range for stop < start: the dimension must not be negative)
         return fpc.Tensor(
-            [(tuple_id, fpc.Ctx({ 'precision': 'integer' }, fpc.Sub(stop_expr, start_expr)))],
+            [(tuple_id, fpc.Ctx({ 'precision': 'integer' }, fpc.Fmax(fpc.Sub(stop_expr, start_expr), fpc.Integer(0))))],
             fpc.Ctx({ 'precision': 'integer' }, fpc.Add(fpc.Var(tuple_id), start_expr))
         )
 
@@ -414,7 +420,7 @@ class _FPCoreCompileInstance(Visitor):
         step_expr = self._visit_expr(step, ctx)
         return fpc.Tensor(
             [(tuple_id, fpc.Ctx({ 'precision': 'integer', 'round': 'toPositive' },
-                fpc.Div(fpc.Sub(stop_expr, start_expr), step_expr)))],
+                fpc.Fmax(fpc.Div(fpc.Sub(stop_expr, start_expr), step_expr), fpc.Integer(0))))],
             fpc.Ctx({ 'precision': 'integer' },
                 fpc.Add(fpc.Mul(fpc.Var(tuple_id), step_expr), start_expr))
         )
